@@ -94,7 +94,12 @@ FpXml ==
    double |-> [ninf |-> "-INF", lowest |-> "-1.7976931348623157e+308", m1 |-> "-1", nzero |-> "-0.0", zero |-> "0",
                minpos |-> "2.2250738585072014e-308", p1 |-> "1", max |-> "1.7976931348623157e+308", pinf |-> "INF",
                nan |-> "NaN"]]
+\* other XML Schema spellings of the same numbers (a sign on +INF and on finite
+\* values, a fraction part, an exponent): the optional flavours are written
+\* with these, the required ones with the spellings above
+FpXmlAlt == [pinf |-> "+INF", p1 |-> "+1.0", m1 |-> "-1.0e0", zero |-> "0.0E+0"]
 Xml(p, t) == IF t = "" THEN "" ELSE IF p \in Fp THEN FpXml[p][t] ELSE Txt[p][t]
+XmlF(p, t, opt) == IF opt /\ p \in Fp /\ t \in DOMAIN FpXmlAlt THEN FpXmlAlt[t] ELSE Xml(p, t)
 
 \* ------------------------------------------- SBE defaults (the standard) --
 \* char 0x20..0x7e null 0; intN -(2^(N-1)-1)..2^(N-1)-1 null -2^(N-1);
@@ -310,7 +315,8 @@ PairVector ==
 TypeVector ==
   [kind |-> "type", prim |-> prim, flavour |-> flav.name, opt |-> flav.opt, origin |-> flav.origin,
    variant |-> variant,
-   xml_min |-> Xml(prim, flav.xmin), xml_max |-> Xml(prim, flav.xmax), xml_null |-> Xml(prim, flav.xnull),
+   xml_min |-> XmlF(prim, flav.xmin, flav.opt), xml_max |-> XmlF(prim, flav.xmax, flav.opt),
+   xml_null |-> XmlF(prim, flav.xnull, flav.opt),
    min |-> Txt[prim][MinTok(K, flav, variant)], max |-> Txt[prim][MaxTok(K, flav)],
    null |-> IF flav.opt THEN Txt[prim][NullTok(K, flav)] ELSE "",
    \* a schema type that gives none of the attributes exposes what the
